@@ -224,7 +224,7 @@ Qed.
 Lemma phys_req_iff T M r size :
   t_req T = prelude_req -> (phys_req T M r size = true <-> real_width M r size).
 Proof.
-  intros HT. destruct r as [p|i|i]; simpl.
+  intros HT. destruct r as [p|i|i|i]; simpl.
   - rewrite HT. destruct size as [w|].
     + rewrite prelude_requirements_lem. split; [intros H; exists w; auto|].
       intros (w' & E & H). inversion E; subst. assumption.
@@ -236,7 +236,43 @@ Proof.
       * split; [discriminate|]. intros (e' & w' & _ & E2 & _). discriminate.
     + split; [discriminate|]. intros (e' & w' & E1 & _). discriminate.
   - tauto.
+  - destruct (nth_ext M i) as [x|] eqn:E; [|split; [intros _ x e H; discriminate|reflexivity]].
+    destruct (xd_req x) as [e|] eqn:R.
+    + split; [intros H x' e' [= <-] E2; congruence|]. intros H. apply (H x e eq_refl R).
+    + split; [intros _ x' e' [= <-] E2; congruence|reflexivity].
 Qed.
+
+(* ---------- user-defined externals ---------- *)
+Lemma check_external_iff x : check_external x = true <-> real_external x.
+Proof.
+  unfold check_external, real_external. destruct (xd_unit x) as [u|].
+  - split.
+    + intros H. apply orb_true_iff in H. destruct H as [H|H]; apply Z.eqb_eq in H; subst; auto.
+    + intros [[= ->]|[= ->]]; reflexivity.
+  - split; [discriminate|]. intros [H|H]; discriminate.
+Qed.
+
+Lemma ext_unit_ok x : real_external x -> ext_unit x = 1 \/ ext_unit x = 8.
+Proof. unfold real_external, ext_unit. intros [->| ->]; auto. Qed.
+
+(* the requirement of a user-defined external, when it has the shape of a width range, is that range *)
+Lemma req_range_none lo hi : req_holds (range_req lo hi) None = false.
+Proof. reflexivity. Qed.
+
+Lemma external_range_requirement_lem T M i x lo hi size :
+  nth_ext M i = Some x -> xd_req x = Some (range_req lo hi) ->
+  (phys_req T M (RExt i) size = true <-> exists w, size = Some w /\ lo <= w <= hi).
+Proof.
+  intros E R. simpl. rewrite E, R. destruct size as [w|].
+  - rewrite req_range. split; [intros H; exists w; split; [reflexivity|lia]|].
+    intros (w' & [= <-] & H). lia.
+  - rewrite req_range_none. split; [discriminate|]. intros (w & H & _). discriminate.
+Qed.
+
+Lemma external_without_requirement_lem T M i x size :
+  nth_ext M i = Some x -> xd_req x = None -> phys_req T M (RExt i) size = true.
+Proof. intros E R. simpl. rewrite E, R. reflexivity. Qed.
+
 
 Lemma fits_field_iff s f a anon :
   let fmin := f_smin f * s_unit s in
